@@ -255,6 +255,41 @@ func byzCatalogue(e common.Env) []byzScenario {
 						vouch(w, A, 1)
 						vouch(w, B, 2)
 					})
+					// vouchers of the sender for its own payload that NAME SOMEBODY ELSE (a member of the other group, the receiver
+					// itself, an identifier that does not exist): the digest is the right one, the named sender is not
+					for _, disguise := range []string{"other-group", "receiver", "nobody"} {
+						disguise := disguise
+						for _, before := range []bool{true, false} {
+							before := before
+							add(fmt.Sprintf("equivocate+vouchers-naming-%s before=%v %s", disguise, before, tag), n, byz, limit, sample, func(w *rworld) {
+								for gi, group := range [][]uint16{A, B} {
+									m := payloadMsg(S, round, gi+1, true, 0xffff)
+									other := B
+									if gi == 1 {
+										other = A
+									}
+									for _, g := range group {
+										about := uint16(99)
+										switch disguise {
+										case "other-group":
+											about = other[0]
+										case "receiver":
+											about = g
+										}
+										if before {
+											w.push(S, g, ackMsg(about, round, m.digest, "disguised"))
+										}
+										w.push(S, g, m)
+										if !before {
+											w.push(S, g, ackMsg(about, round, m.digest, "disguised"))
+										}
+									}
+								}
+								vouch(w, A, 1)
+								vouch(w, B, 2)
+							})
+						}
+					}
 					add("selfack-instead-of-payload "+tag, n, byz, limit, sample, func(w *rworld) {
 						send(w, A, 1, false, true, true)
 						send(w, B, 1, true, true, false) // B gets only vouchers for version 1
@@ -409,6 +444,10 @@ func byzCatalogue(e common.Env) []byzScenario {
 			}
 			hp := payloadMsg(H, 1, 1, true, 0xffff)
 			hf := payloadMsg(H, 1, 2, true, 0xffff)
+			for _, about := range []uint16{H, honest[0], 99} {
+				m := payloadMsg(S, 1, 1+rng.Intn(2), true, 0xffff)
+				pool = append(pool, ackMsg(about, 1, m.digest, "mix-disguised"))
+			}
 			pool = append(pool, hp, ackMsg(H, 1, hp.digest, "mix-about-honest"), ackMsg(H, 1, hf.digest, "mix-forged-about-honest"), ackMsg(H, 2, hp.digest, "mix-other-round"),
 				payloadMsg(S, 1, 1, false, honest[0]))
 			cnt := 4 + rng.Intn(10)
